@@ -93,6 +93,7 @@ type c04Gang struct {
 	lightMinAnno   bool  // light-weight name label, but min-available given by the annotation
 	declGroup      []int // gang indexes of the group the gang CURRENTLY declares; nil = the whole group s.groups[grp]
 	lateAnno       string // groups annotation that a later PodGroup update will add (late bundling), "" = none pending
+	everStandalone bool   // the gang was first declared with a group list other than its final group (late bundling)
 
 	// PodGroup object (CRD gangs); its events are delivered synchronously
 	pgExists bool
@@ -187,6 +188,7 @@ type c04Sim struct {
 	maxPods int
 	// the last rule ended in an Unreserve (used to give a doubly-listed member a cause-specific signature)
 	afterUnreserve bool
+	resubmitted    map[int]bool // groups whose PodGroups were all deleted and created again (variants only)
 
 	allowed, rejected []string // effects of the current operation on the waiting-pod map
 
@@ -331,11 +333,38 @@ func (g *c04Gang) buildPG() *v1alpha1.PodGroup {
 // ---------------------------------------------------------------- reference model
 
 func (s *c04Sim) dropRecord(g *c04Gang) {
+	knewItsGroup := g.recInit
 	g.recExists, g.recInit, g.recFromCRD = false, false, false
 	for _, p := range s.pods {
 		if p.gang == g {
 			p.known, p.st = false, c04None
 		}
+	}
+	// when no gang of the group is left the group is gone: gangs that appear later under the same names form a new
+	// group that has not been satisfied yet
+	for _, gi := range s.groups[g.grp] {
+		if s.gangs[gi].recExists {
+			return
+		}
+	}
+	for _, gi := range s.groups[g.grp] {
+		if s.gangs[gi].everStandalone {
+			// late-bundled group: the gangs were first seen with another group list, and the unchanged cache then keeps
+			// the group's once-satisfied record across a whole-group deletion (reported as an observation). Whether that
+			// is forbidden depends on reading a re-created group as a new one: kept sticky here (weaker, never stronger).
+			s.c.ClassIf(s.once[g.grp], "once-satisfied-kept-although-the-whole-late-bundled-group-vanished(tolerated)")
+			return
+		}
+	}
+	if !knewItsGroup {
+		// the last record to go was an undefined one (pods of a PodGroup gang seen without their PodGroup): it does not
+		// know its group, and the unchanged cache then keeps the group's once-satisfied record. Kept sticky (weaker).
+		s.c.ClassIf(s.once[g.grp], "once-satisfied-kept-although-the-whole-group-vanished(last gang undefined, tolerated)")
+		return
+	}
+	if s.once[g.grp] {
+		s.once[g.grp] = false
+		s.c.Class("once-satisfied-forgotten-because-the-whole-group-vanished")
 	}
 }
 
@@ -736,6 +765,7 @@ func (s *c04Sim) permit(t *rapid.T, p *c04Pod) {
 		}
 	}
 	s.permitSeen[g.grp] = true
+	s.c.ClassIf(s.resubmitted[g.grp], "variant:permit-in-a-resubmitted-group")
 	if status == Success {
 		s.nSuccess++
 		s.logf("permit %s -> SUCCESS [%s]", p.name, detail)
@@ -777,7 +807,7 @@ func (s *c04Sim) permit(t *rapid.T, p *c04Pod) {
 // ---------------------------------------------------------------- generation of the universe
 
 func c04GenSim(t *rapid.T, c *vk.Case, maxPods int) *c04Sim {
-	s := &c04Sim{c: c, maxPods: maxPods}
+	s := &c04Sim{c: c, maxPods: maxPods, resubmitted: map[int]bool{}}
 	defPolicy := rapid.SampledFrom([]string{extension.GangMatchPolicyOnceSatisfied, extension.GangMatchPolicyOnceSatisfied,
 		extension.GangMatchPolicyOnlyWaiting, extension.GangMatchPolicyWaitingAndRunning}).Draw(t, "defaultMatchPolicy")
 	s.args = &config.CoschedulingArgs{DefaultTimeout: metav1.Duration{Duration: 3 * time.Hour}, DefaultMatchPolicy: defPolicy}
